@@ -275,10 +275,26 @@ def run(tier, seed):
         S.append(gen_session(rng, tier))
     io, mo, errs = sockchk.run_both(exe, S, model=os.path.exists(vlib.model_exe()))
     nval, distinct, ops = 0, set(), {}
+    khits_main = []
     for i, s in enumerate(S):
         if io[i] is None:
             o1, rc1, er1 = errs.get(i, ([], 0, ""))
-            ofail.append({"session": [l[:400] for l in s], "why": "implementation crashed / aborted (sanitizer report or signal)", "stderr": er1[-1500:]})
+            # which operation died?  (o1 = output of `reset` + the operations that completed)
+            k = len(o1) - 1
+            op = s[k] if 0 <= k < len(s) else ""
+            w = op.split()
+            prev = o1[-1] if o1 else ""
+            bound = re.search(r"ch=\[(.*?)\]", prev)
+            bound = [int(x.split(":")[1], 16) for x in bound.group(1).split(",") if x] if bound else []
+            lying = False
+            if len(w) >= 4 and w[2] in ("dgram", "from") and bound:
+                raw = b"" if w[-1] == "-" else bytes.fromhex(w[-1])
+                lying = len(raw) < 4 or (int.from_bytes(raw[0:2], "big") in bound and len(raw) < 4 + int.from_bytes(raw[2:4], "big"))
+            if lying and "udp-turn.c" in er1 and "heap-buffer-overflow" in er1 and KF_CHANLEN in known_texts:
+                khits_main.append(op)
+            else:
+                ofail.append({"session": [l[:400] for l in s], "why": "implementation crashed / aborted (sanitizer report or signal)",
+                              "crashed_at": op[:300], "stderr": er1[-1500:]})
             continue
         if mo[i] is not None and mo[i] != io[i]:
             k = 0
@@ -298,6 +314,8 @@ def run(tier, seed):
                 distinct.add(hash((l[:200], o[:200])))
     # ---- recorded findings: sessions that abort the sanitised harness
     khits = {}
+    if khits_main:
+        khits[KF_CHANLEN] = list(khits_main)
     H = [hostile_session(rng) for _ in range(60 if tier == "quick" else 600)]
     for (L, kind) in H:
         o, rc, er = vlib.run_lines(exe, ["reset"] + L, timeout=120)
